@@ -54,6 +54,7 @@ type advPKI struct {
 	sign, enc          map[string]gmtls.Certificate
 	cli                map[string]gmtls.Certificate
 	enc2               gmtls.Certificate // a second, equally trusted encryption certificate
+	rogueEncKey        *sm2.PrivateKey
 	roots, clientRoots *x509.CertPool
 	// the TLS side: RSA certificates under an RSA CA (made with the standard library)
 	tlsSrv, tlsCli           map[string]gmtls.Certificate
@@ -132,6 +133,16 @@ func loadAdvPKI() (*advPKI, error) {
 			}
 		}
 		adv.enc2 = mk(adv.ca, encU, "localhost", ok0, ok1)
+		// a self-signed encryption certificate of the attacker's own making, appended behind the genuine one
+		if rk, e := sm2.GenerateKey(rand.Reader); !fail(e) {
+			rt := &x509.Certificate{SerialNumber: nextSerial(), Subject: pkix.Name{CommonName: "localhost"}, NotBefore: ok0, NotAfter: ok1, KeyUsage: encU, ExtKeyUsage: eku,
+				DNSNames: []string{"localhost"}, SignatureAlgorithm: x509.SM2WithSM3}
+			if rder, e := x509.CreateCertificate(rt, rt, &rk.PublicKey, rk); !fail(e) {
+				g := adv.enc["good"]
+				adv.enc["good_then_rogue"] = gmtls.Certificate{Certificate: [][]byte{g.Certificate[0], rder}, PrivateKey: g.PrivateKey}
+				adv.rogueEncKey = rk
+			}
+		}
 		adv.cli = map[string]gmtls.Certificate{
 			"good":      mk(adv.ca, signU, "client", ok0, ok1),
 			"untrusted": mk(adv.rogue, signU, "client", ok0, ok1),
@@ -139,6 +150,14 @@ func loadAdvPKI() (*advPKI, error) {
 			"notyet":    mk(adv.ca, signU, "client", now.Add(24*time.Hour), now.Add(48*time.Hour)),
 			"long":      mk(adv.ca, signU, "client", ok0, now.Add(480*time.Hour)),
 			"future":    mk(adv.ca, signU, "client", now.Add(120*time.Hour), now.Add(480*time.Hour)),
+		}
+		// a CA certificate of the client's own making in front of a victim's certificate and the victim's issuer
+		if mk2, e := sm2.GenerateKey(rand.Reader); !fail(e) {
+			mt := &x509.Certificate{SerialNumber: nextSerial(), Subject: pkix.Name{CommonName: "mallory CA"}, NotBefore: ok0, NotAfter: ok1, KeyUsage: signU | x509.KeyUsageCertSign,
+				ExtKeyUsage: eku, BasicConstraintsValid: true, IsCA: true, SignatureAlgorithm: x509.SM2WithSM3}
+			if mder, e := x509.CreateCertificate(mt, mt, &mk2.PublicKey, mk2); !fail(e) {
+				adv.cli["ca_first"] = gmtls.Certificate{Certificate: [][]byte{mder, adv.cli["good"].Certificate[0], adv.ca.der}, PrivateKey: mk2}
+			}
 		}
 		adv.roots = poolOf(adv.ca.cert)
 		adv.clientRoots = poolOf(adv.ca.cert)
@@ -428,7 +447,11 @@ func runAdv(s *advScenario, replay *advReplay, capture *advReplay) (o advObs, er
 			sign = withOtherKey(sign)
 		}
 		if s.EncKey == "wrong" {
-			enc = withOtherKey(enc)
+			if s.EncCert == "good_then_rogue" { // the key of the self-made certificate at the end of the list
+				enc = gmtls.Certificate{Certificate: enc.Certificate, PrivateKey: p.rogueEncKey}
+			} else {
+				enc = withOtherKey(enc)
+			}
 		}
 		suites = []uint16{gmtls.GMTLS_SM2_WITH_SM4_SM3, gmtls.GMTLS_ECC_SM4_GCM_SM3}
 		if s.Suite == "GCM" {
